@@ -318,9 +318,12 @@ pub fn templates() -> Vec<Template> {
             steps: vec![p, st("x", "X", vec![e("p1"), e("p2"), e("x.in")]), st("y", "Y", vec![e("p1"), e("p2"), e("y.in")])],
             ..Default::default()
         };
+        // the producer written without explicit outputs: `build | p1 p2: ...`
+        let mut implicit_only = base.clone();
+        implicit_only.steps[0].no_explicit_outs = true;
         out.push(Template {
             name: "two-by-two",
-            variants: vec![base],
+            variants: vec![base, implicit_only],
             manifest_name: "build.ninja".into(),
             headers: vec![],
             reports: BTreeMap::new(),
@@ -863,6 +866,51 @@ pub fn wanted_of(t: &Template, sim: &Sim, targets: &[String]) -> BTreeSet<usize>
 }
 
 /// Judges one finished invocation against the reference model.
+/// What the log on disk says now, step by step, against what the model says
+/// n2 has been told to remember: a step has a loaded record iff the model has
+/// one attached to it, and the remembered dependency list is the one of the
+/// last recorded run (whatever the order in which commands happened to finish).
+/// The log is inspected through the loading facade on a copy of its bytes
+/// (opening a log may repair it).
+pub fn audit_log(t: &Template, sim: &Sim) -> Findings {
+    let mut f = Findings::new();
+    let Ok(bytes) = std::fs::read(".n2_db") else {
+        return f;
+    };
+    let manifest = t.manifest_name.clone();
+    let loaded = crate::worker::catch(|| n2::verif::load_disk(&manifest));
+    std::fs::write(".n2_db", &bytes).expect("restore log");
+    let Ok(Ok((dump, hashes))) = loaded else {
+        // (a log or manifest that does not load shows up in the next invocation)
+        return f;
+    };
+    let p = sim.project();
+    for (bi, b) in dump.builds.iter().enumerate() {
+        let Some(step) = p.steps.iter().position(|s| s.all_outs().cloned().collect::<Vec<_>>() == b.outs) else {
+            continue;
+        };
+        if p.steps[step].phony {
+            continue;
+        }
+        match (sim.model.attached(p, step), hashes[bi]) {
+            (Some(rec), Some(_)) => {
+                if rec.deps != b.discovered_ins {
+                    f.push((
+                        "remembered-dependencies-differ".into(),
+                        format!("step {}: the last recorded run reported {:?}, the log now yields {:?}", b.outs[0], rec.deps, b.discovered_ins),
+                    ));
+                }
+            }
+            (None, None) => {}
+            (Some(rec), None) => f.push(("record-not-in-log".into(), format!("step {} was recorded (dependencies {:?}) but the log yields no record for it", b.outs[0], rec.deps))),
+            // (the model keeps adopted steps apart from recorded runs, so a
+            // record without a modelled run is not judged here)
+            (None, Some(_)) => {}
+        }
+    }
+    f
+}
+
 pub fn judge(t: &Template, before: &Sim, run: &Run, targets: &[String], expect_success: bool, adopt: bool) -> Findings {
     let mut f = Findings::new();
     let sim = &run.sim;
@@ -900,6 +948,9 @@ pub fn judge(t: &Template, before: &Sim, run: &Run, targets: &[String], expect_s
     }
     if adopt && sim.ran.len() > before.ran.len() {
         f.push(("restat-ran-commands".into(), "commands were run in restat (adopt) mode".into()));
+    }
+    if matches!(run.result, BuildResult::Success(_) | BuildResult::Failed) {
+        f.extend(audit_log(t, sim));
     }
     let wanted = wanted_of(t, sim, targets);
     // Is a declared source missing somewhere in the wanted set?
